@@ -405,7 +405,11 @@ class NameConverter(ast.NodeTransformer):
         code_mangled,
     ):
         self.analysis = anal
-        self.recurse_sym = recurse_sym
+        # Every name that stands for the function itself: recurse, and the
+        # function's own name
+        self.recurse_syms = (
+            {recurse_sym} if isinstance(recurse_sym, str) else set(recurse_sym)
+        )
         self.call_next_sym = call_next_sym
         self.ovld_mangled = ovld_mangled
         self.map_mangled = map_mangled
@@ -413,7 +417,7 @@ class NameConverter(ast.NodeTransformer):
         self.count = count()
 
     def visit_Name(self, node):
-        if node.id == self.recurse_sym:
+        if node.id in self.recurse_syms:
             new_node = ast.Name(self.ovld_mangled, ctx=node.ctx)
             if self.analysis.is_method and isinstance(node.ctx, ast.Load):
                 # In a method, recurse stands for the bound method
@@ -431,9 +435,9 @@ class NameConverter(ast.NodeTransformer):
             return node
 
     def visit_Call(self, node):
-        if not isinstance(node.func, ast.Name) or node.func.id not in (
-            self.recurse_sym,
-            self.call_next_sym,
+        if not isinstance(node.func, ast.Name) or (
+            node.func.id not in self.recurse_syms
+            and node.func.id != self.call_next_sym
         ):
             return self.generic_visit(node)
 
@@ -552,7 +556,7 @@ def adapt_function(fn, ovld, newname):
     )
     if rec_syms or cn_syms:
         return recode(
-            fn, ovld, rec_syms and rec_syms[0], cn_syms and cn_syms[0], newname
+            fn, ovld, rec_syms, cn_syms and cn_syms[0], newname
         )
     else:
         return rename_function(fn, newname)
